@@ -15,7 +15,7 @@ TRUSTED_BASE = ["Spec/Digest.lean: enzyme geometries typed from REBASE (GGTCTC(1
                 "Go regexp on a literal site = leftmost non-overlapping scan (modelled; corresponded on every case)",
                 "ASCII input"]
 ASSUMPTIONS = ["inputs are ASCII", "custom enzymes carry literal (QuoteMeta) regular expressions for the site and its reverse complement"]
-PARTIAL = ["geometry clause for LINEAR parts (cut (linear s) ~ digestLin s on wfLinear layouts): judged on every generated linear case, not yet proved; proved for linear parts: cut_linear_inside, cut_case"]
+PARTIAL = []
 
 BUILTIN = {"BsaI": ("GGTCTC", 1, 4), "BbsI": ("GAAGAC", 2, 4), "BtgZI": ("GCGATG", 10, 4)}
 COMP = {"A": "T", "C": "G", "G": "C", "T": "A"}
@@ -88,15 +88,21 @@ def layout(r, n, site, skip, oh, circular, k, wantwf=True):
     """plant k sites (random orientation) into a filler of n letters; returns the sequence or None"""
     m = len(site)
     rs = rc(site)
+    t = r.random()
+    if t < 0.55:
+        # forward and backward sites alternate: every forward cut is paired
+        first = r.random() < 0.85
+        orient = [first ^ (i % 2 == 1) for i in range(k)]
+    elif t < 0.63:
+        orient = [r.random() < 0.5] * k          # only forward or only backward sites
+    else:
+        orient = [r.random() < 0.5 for _ in range(k)]
     for _attempt in range(60):
         mode = r.random()
         alpha = ACGT if mode < 0.6 else (r.sample(ACGT, 2) if mode < 0.85 else [r.choice(ACGT)])
         u = [r.choice(alpha) for _ in range(n)]
         planted = [False] * n
         # choose gaps: tight ones relative to the pairing rule, zero, or anything
-        orient = [r.random() < 0.5 for _ in range(k)]
-        if r.random() < 0.15:
-            orient = [orient[0] if orient else True] * k
         free = n - k * m
         if free < 0:
             return None
@@ -104,7 +110,7 @@ def layout(r, n, site, skip, oh, circular, k, wantwf=True):
         for i in range(k):
             t = r.random()
             if t < 0.2:
-                g = 2 * skip + 2 * oh + r.choice([0, 0, 1, -1])
+                g = 2 * skip + 2 * oh + (r.choice([0, 0, 1, 2]) if wantwf else r.choice([0, -1, -2, 1]))
             elif t < 0.3:
                 g = r.choice([0, 1, skip, oh, skip + oh])
             elif t < 0.4:
@@ -234,7 +240,7 @@ def cases(seed, tier):
         yield ["circ", "", site, str(skip), str(oh), "true", s.lower(), "all"]
 
     # --- all rotations of small plasmids
-    nall = 45 if quick else 1200
+    nall = 45 if quick else 3000
     for i in range(nall):
         c = circ_case(r, 120 if quick else 300, True)
         if c:
@@ -246,7 +252,7 @@ def cases(seed, tier):
                 yield c
 
     # --- larger plasmids, origin at / next to / inside every site and cut
-    nbig = 260 if quick else 4000
+    nbig = 260 if quick else 8000
     for i in range(nbig):
         c = circ_case(r, 1200 if quick else 3000, False)
         if c:
@@ -258,7 +264,7 @@ def cases(seed, tier):
             yield c
 
     # --- linear parts
-    nlin = 400 if quick else 6000
+    nlin = 400 if quick else 12000
     for i in range(nlin):
         c = lin_case(r, 1500 if quick else 3000)
         if c:
@@ -336,7 +342,8 @@ LEVEL_TEXT = ("Kernel-checked theorems about the statement-by-statement model of
               "invariant under moving the origin), cut_circular (on every layout of the quantifier the code's fragments are, as a multiset, "
               "exactly the spec's: forward cut to the next cut when that is a reverse cut), cut_rotation_independent (hence the code's multiset "
               "is the same at every rotation), cut_geometry (offsets of both overhangs, stretch between the two cuts, no other cut inside), "
-              "cut_linear_inside (every fragment of a linear part is a contiguous piece of it, any enzyme, directional or not), cut_case, "
+              "cut_linear_inside (every fragment of a linear part is a contiguous piece of it, any enzyme, directional or not), cut_linear / "
+              "cut_linear_geometry (the same exactness and offsets for linear parts, read without wrap-around), cut_case, "
               "builtin_pinned / byName_eq (the built-in table is the REBASE geometry). The model is tied to clone.CutWithEnzyme by correspondence "
               "on every generated case (fragment lists in order, panics included, ByName = direct call), and every real output is judged against "
               "the spec as a multiset at every rotation (exhaustive over all rotations for plasmids up to 300 bases in the thorough tier).")
